@@ -224,6 +224,85 @@ def literal_variants(cell, full):
     return out
 
 
+def multiblock_forms(k):
+    """expressions of class k that are lowered into SEVERAL basic blocks (so that the block an operand starts in is not
+    the block it ends in): nested falls, list indexing (bounds check), cast from Variable (type check), Betrag, modulo
+    (zero check), und/oder (short circuit)"""
+    n = CLS[k][1]
+    forms = [("falls", "((v%s), falls (vW), ansonsten (v%s))" % (k, k))]
+    if k != "V":
+        forms.append(("ausVariable", "((vV) als %s)" % n))
+    if "L" + k in CLS:
+        forms.append(("element", "((vL%s) an der Stelle (vZ))" % k))
+    if k in ("Z", "K"):
+        forms.append(("betrag", "(der Betrag von (v%s))" % k))
+    if k in ("Z", "B"):
+        forms.append(("modulo", "((v%s) modulo (v%s))" % (k, k)))
+    if k == "W":
+        forms += [("und", "((vW) und (vW))"), ("oder", "((vW) oder (vW))")]
+    if k == "T":
+        forms.append(("tempfalls", '(((vT) verkettet mit (vT)), falls (vW), ansonsten (vT))'))
+    return forms
+
+
+def multiblock_variants(cell, pairs):
+    """[(operand description, text)]: one operand position (for `pairs`: every combination of positions, used for
+    falls) replaced by each multi-block form of its class"""
+    kind, op, tys, text = cell
+    spans = [m.span() for m in re.finditer(r"\(v[A-Z]{1,2}\)", text)]
+    classes = [text[a + 2:b - 1] for a, b in spans]
+    choices = [[None] + multiblock_forms(k) for k in classes]
+    combos = []
+    if pairs:
+        import itertools
+        combos = [c for c in itertools.product(*choices) if any(x is not None for x in c)]
+    else:
+        for pos, ch in enumerate(choices):
+            for f in ch[1:]:
+                combos.append(tuple(f if q == pos else None for q in range(len(choices))))
+    out = []
+    for c in combos:
+        t, shift = text, 0
+        for (a, b), f in zip(spans, c):
+            if f is not None:
+                t = t[:a + shift] + f[1] + t[b + shift:]
+                shift += len(f[1]) - (b - a)
+        out.append((tuple("v" if f is None else f[0] for f in c), t))
+    return out
+
+
+# operator overloads for the compound-assignment leg (only in that leg's prelude: they change what `plus` etc. mean)
+def overload_decl(name, a, b, r, op, body):
+    return ('Die Funktion %s mit den Parametern p und q vom Typ %s und %s, gibt %s zurück, macht:\n\tGib %s zurück.\n'
+            'Und überlädt den "%s" Operator.\n' % (name, a, b, r, body, op))
+
+
+OVERLOADS = "".join(
+    overload_decl("bz_%s" % i, "Buchstabe", "Zahl", "einen Buchstaben", op, "p") for i, op in enumerate(("plus", "minus", "mal", "durch"))
+) + overload_decl("pp_plus", "Punkt", "Punkt", "einen Punkt", "plus", "p") + overload_decl("tz_mal", "Text", "Zahl", "einen Text", "mal", "p") + \
+    overload_decl("lz_plus", "Zahlen Liste", "Zahl", "eine Zahlen Liste", "plus", "p")
+
+
+def compound_cells():
+    """compound assignments: the target is read as a value through the Assigneable node itself (VisitIdent, VisitIndexing,
+    VisitFieldAccess) — x {variable, list element, Text position, field} x operand class, with the overloads above"""
+    targets = [("var:%s" % k, "t%s" % k) for k in KEYS]
+    for k in KEYS:
+        if k.startswith("L") or k == "T":
+            for i in ("Z", "B"):
+                targets.append(("elem:%s,%s" % (k, i), "t%s an der Stelle (v%s)" % (k, i)))
+    targets += [("field:%s" % f, "%s von tS" % f) for f in FIELDS]
+    forms = [("ERHOEHE", "Erhöhe %s um (v%s).\n"), ("VERRINGERE", "Verringere %s um (v%s).\n"), ("VERVIELFACHE", "Vervielfache %s um (v%s).\n"),
+             ("TEILE", "Teile %s durch (v%s).\n"), ("VERSCHIEBE_L", "Verschiebe %s um (v%s) Bit nach Links.\n"), ("VERSCHIEBE_R", "Verschiebe %s um (v%s) Bit nach Rechts.\n")]
+    out = []
+    for tk, tt in targets:
+        out.append(("compound=NEGIERE target=%s" % tk, "Negiere %s.\n" % tt))
+        for fk, ft in forms:
+            for o in KEYS:
+                out.append(("compound=%s target=%s operand=%s" % (fk, tk, o), ft % (tt, o)))
+    return out
+
+
 def cell_name(c):
     return "op=%s types=%s" % (c[1], ",".join(c[2]))
 
@@ -338,9 +417,12 @@ def classify(r):
     out = r["out"]
     if "Unerwarteter Fehler" in out:
         return "internal-error"
-    if "could not parse llvm ir" in out or "llvm" in out.lower():
+    if "could not parse llvm ir" in out:
         return "llvm-reject"
-    return "frontend-reject"
+    if "Fehlerhafter Quellcode" in out or re.search(r"Fehler \(\d+\) in ", out):
+        return "frontend-reject"
+    # no diagnostic at all: kddp died (signal in LLVM's pass manager on unverified IR, timeout, ...)
+    return "compiler-crash"
 
 
 def excerpt(out):
@@ -350,13 +432,25 @@ def excerpt(out):
         msg = out[i:i + 700]
         j = msg.find("goroutine ")
         return msg[:j] if j > 0 else msg
+    if "SIGSEGV" in out or "signal " in out:
+        i = out.find("SIG")
+        return out[max(0, i - 200):i + 500]
     return out[-1000:]
+
+
+def program_prelude(body, prelude=None):
+    """None: the declarations the body names; "OVL": those plus the operator overloads; else the given text"""
+    if prelude is None:
+        return minimal_prelude(body)
+    if prelude == "OVL":
+        return minimal_prelude(OVERLOADS + body) + OVERLOADS
+    return prelude
 
 
 def compile_prog(b, sc, name, body, opt=0, prelude=None):
     path = os.path.join(sc, name + ".ddp")
     with open(path, "w") as fh:
-        fh.write((minimal_prelude(body) if prelude is None else prelude) + body)
+        fh.write(program_prelude(body, prelude) + body)
     r = b.compile(path, os.path.join(sc, name), opt=opt)
     for ext in ("", ".o"):
         try:
@@ -858,6 +952,78 @@ def main():
             continue
         n_viol += 1
         report("%s verdict=%s" % (lunits[u][4], v), v, out, lunits[u][3], dict(operands="literals where the key names one", context=lunits[u][2], group=lbe.groups.get(u)))
+    # ---- 3d. operands that are themselves lowered into several basic blocks (judged directly) ------------------
+    # every admitted cell with one operand replaced by each multi-block form of its class; for `falls` (and und/oder,
+    # whose phi nodes name the blocks their operands END in) every combination of positions
+    mb_variants = []
+    for i in sorted(want_ctx):
+        op = cells[i][1]
+        pairs = op in ("TER_FALLS", "BIN_AND", "BIN_OR")
+        if quick and not pairs and ck.rng.random() >= 0.06:
+            continue
+        for combo, text in multiblock_variants(cells[i], pairs):
+            if quick and pairs and op == "TER_FALLS" and sum(1 for x in combo if x != "v") > 2:
+                continue
+            mb_variants.append((len(mb_variants), i, combo, text))
+    mres, problems = frontend_batch(cx, b, [(n, ctx_stmt("VI", "V", text, n)) for (n, i, combo, text) in mb_variants])
+    if problems:
+        ck.broken_obligation("cellx could not process %d frontend batches of the multi-block leg: %s" % (len(problems), str(problems[0][1])[:400]), "")
+    ck.count(len(mb_variants))
+    munits = []
+    for (n, i, combo, text) in mb_variants:
+        acc, ty = mres.get(n, (False, None))
+        if not acc or ty not in TYPEINFO:
+            continue
+        for x in (("IN",) if quick else ("IN", "AR", "VI", "RT")):
+            u = len(munits)
+            munits.append((u, n, x, ctx_stmt(x, ty, text, u), "cell %s operands=%s type=%s ctx=%s" % (cell_name(cells[i]), "|".join(combo), ty, x)))
+    mcres, _ = frontend_batch(cx, b, [(u, st) for (u, n, x, st, k) in munits])
+    mgood = [u for (u, n, x, st, k) in munits if mcres.get(u, (False, None))[0]]
+    ck.count(len(munits))
+    ck.rng.shuffle(mgood)
+    mbe = Backend(b, sc)
+    mbad = {}
+    for r in vlib.pmap(lambda bt: mbe.isolate([(u, munits[u][3]) for u in bt]), [mgood[k:k + LB] for k in range(0, len(mgood), LB)]):
+        mbad.update(r)
+    for u in mgood:
+        ck.nontrivial(munits[u][4])
+    for u, (v, out) in sorted(mbad.items()):
+        if v == "frontend-reject":
+            ck.broken_obligation("kddp reports a frontend error for %s which parser.Parse (cellx) accepted" % munits[u][4], out[-600:])
+            continue
+        n_viol += 1
+        report("%s verdict=%s" % (munits[u][4], v), v, out, munits[u][3], dict(operands="multi-block expressions where the key names one", context=munits[u][2], group=mbe.groups.get(u)))
+    # ---- 3e. compound assignments x targets x overloaded operators (judged directly) ---------------------------
+    # the target of Erhöhe/Verringere/Vervielfache/Teile/Verschiebe/Negiere is READ through its Assigneable node
+    OVL = PRELUDE + OVERLOADS
+    ccs = compound_cells()
+    cfr, problems = frontend_batch(cx, b, [(j, t) for j, (k, t) in enumerate(ccs)], prelude=OVL)
+    if problems:
+        ck.broken_obligation("cellx could not process %d batches of the compound-assignment leg: %s" % (len(problems), str(problems[0][1])[:400]), "")
+    ck.count(len(ccs))
+    cgood = [j for j in range(len(ccs)) if cfr.get(j, (False, None))[0]]
+    known_pat = [re.compile(k["key"]) for k in ck.known]
+    csingle = [j for j in cgood if any(pt.search(ccs[j][0] + " verdict=" + v) for pt in known_pat for v in ("internal-error", "llvm-reject", "link-fail", "compiler-crash"))]
+    cgood = [j for j in cgood if j not in set(csingle)]
+    ck.rng.shuffle(cgood)
+    cbe = Backend(b, sc, prelude="OVL")
+    cbad = {}
+    for r in vlib.pmap(lambda bt: cbe.isolate([(j, ccs[j][1]) for j in bt]), [cgood[k:k + BATCH] for k in range(0, len(cgood), BATCH)]):
+        cbad.update(r)
+    for j, r in zip(csingle, vlib.pmap(lambda j: cbe.compile_items([(j, ccs[j][1])]), csingle)):
+        if r[0] != "ok":
+            cbad[j] = r
+    for j in cgood + csingle:
+        ck.nontrivial(ccs[j][0])
+    for j, (v, out) in sorted(cbad.items()):
+        if v == "frontend-reject":
+            ck.broken_obligation("kddp reports a frontend error for %s which parser.Parse (cellx) accepted" % ccs[j][0], out[-600:])
+            continue
+        n_viol += 1
+        rep_text = ccs[j][1]
+        if ck.violation("%s verdict=%s" % (ccs[j][0], v), "the frontend accepts the program, kddp answers %s: %s" % (v, " ".join(out.split())[:400]),
+                        dict(program=program_prelude(cbe.groups.get(j) or rep_text, "OVL") + (cbe.groups.get(j) or rep_text), statement=rep_text, verdict=v, output=out[-1500:], how="DDPPATH=<build> kddp kompiliere prog.ddp -o prog.o")):
+            pass
     # ---- 4. statement-level operand positions: tc_stmt / lower_stmt against frontend and kddp ---------------
     sts = stmt_cells(full_forstep=not quick, rng=ck.rng)
     sfr, problems = frontend_batch(cx, b, [(j, st[3]) for j, st in enumerate(sts)], size=1500)
@@ -915,10 +1081,10 @@ def main():
     # ---- evidence -----------------------------------------------------------------------------------
     ck.cov.update(dict(
         exhaustive=True, cells=len(cells), admitted_cells=len(admitted), context_units=len(units), compiled_units=len(real), skipped_units_quick=skipped,
-        predicted_bad_units=len(single), programs_compiled=be.programs + lbe.programs + ebe.programs, statement_cells=len(ex), statement_cells_admitted=len(eacc),
-        temporary_flavour_units=temp_units, literal_variants=len(lit_variants), literal_units_compiled=len(lgood), failing_units=n_viol, model_disagreements=len(disagreements), checker_table_mismatches=len(tc_mismatch), statement_table_mismatches=len(smis), statement_units_compiled=len(sreal),
+        predicted_bad_units=len(single), programs_compiled=be.programs + lbe.programs + ebe.programs + mbe.programs + cbe.programs, statement_cells=len(ex), statement_cells_admitted=len(eacc),
+        temporary_flavour_units=temp_units, literal_variants=len(lit_variants), literal_units_compiled=len(lgood), multiblock_variants=len(mb_variants), multiblock_units_compiled=len(mgood), compound_cells=len(ccs), compound_cells_compiled=len(cgood) + len(csingle), failing_units=n_viol, model_disagreements=len(disagreements), checker_table_mismatches=len(tc_mismatch), statement_table_mismatches=len(smis), statement_units_compiled=len(sreal),
         operators=dict(unary=un, binary=bi, ternary=te, cast=ca), type_classes=KEYS, contexts=CTX_ALL,
-        input_distribution="enumeration, no sampling in the frontend leg: every operator of operators.go x every tuple of %d operand classes (%d cells) through the real frontend; every admitted cell x every applicable value context (%s) through kddp+LLVM+gcc (quick tier: initialiser contexts VI/IN for every admitted cell, 20%% seeded sample of the other contexts of cells predicted fine, up to 3 contexts of every cell predicted bad and 8%% of the list-literal-of-lists units alone; thorough: everything, plus every cell again with call results as operands in 5 contexts); every admitted cell again with bare literals (Zahl 0 1 2 -1, Kommazahl 0,0 2,0, wahr falsch, 'a', \"a\") in each single operand position (thorough: every combination) in the initialiser and argument contexts (thorough: also VI, RT), judged directly; statement cells (repeat count, while/if condition, both list literal forms, indexed assignment, counting loops with and without step, range loops) x every tuple of the classes through the real frontend against tc_stmt (quick tier: FORSTEP tuples with three or four numeric classes all, with two 20%%, with fewer 2%%; thorough: all 130321) and every admitted one through kddp against lower_stmt (quick tier: 25%% of the admitted FORSTEP cells)" % (len(KEYS), len(cells), ",".join(CTX_ALL)),
+        input_distribution="enumeration, no sampling in the frontend leg: every operator of operators.go x every tuple of %d operand classes (%d cells) through the real frontend; every admitted cell x every applicable value context (%s) through kddp+LLVM+gcc (quick tier: initialiser contexts VI/IN for every admitted cell, 20%% seeded sample of the other contexts of cells predicted fine, up to 3 contexts of every cell predicted bad and 8%% of the list-literal-of-lists units alone; thorough: everything, plus every cell again with call results as operands in 5 contexts); every admitted cell again with bare literals (Zahl 0 1 2 -1, Kommazahl 0,0 2,0, wahr falsch, 'a', \"a\") in each single operand position (thorough: every combination) in the initialiser and argument contexts (thorough: also VI, RT), judged directly; every admitted cell with one operand (falls/und/oder: every combination) replaced by each expression form that is lowered into several basic blocks (nested falls, list element, cast from Variable, Betrag, modulo, und/oder), judged directly; compound assignments (Erhöhe Verringere Vervielfache Teile Verschiebe Negiere) x target (variable, list element, Text position, field) x operand class with operator overloads for (Buchstabe, Zahl), (Punkt, Punkt), (Text, Zahl), (Zahlen Liste, Zahl), judged directly; statement cells (repeat count, while/if condition, both list literal forms, indexed assignment, counting loops with and without step, range loops) x every tuple of the classes through the real frontend against tc_stmt (quick tier: FORSTEP tuples with three or four numeric classes all, with two 20%%, with fewer 2%%; thorough: all 130321) and every admitted one through kddp against lower_stmt (quick tier: 25%% of the admitted FORSTEP cells)" % (len(KEYS), len(cells), ",".join(CTX_ALL)),
         rule="distinct = (operator, operand classes, context) triples resp. statement cells; non-trivial = admitted by the frontend, i.e. the code generator ran on it"))
     a = [i for i in sorted(admitted)][:3]
     for i in a:
